@@ -8,7 +8,7 @@ TEXT = {
                 'from the Go source on each run) equals the hand-written reference fetch/decode/execute, as an equality of complete '
                 'results (all registers, IFF/IM/HALT, whole memory function, ordered bus/port log). Assembled from 1792 kernel-checked '
                 'per-slot obligations (7 tables x 256 bytes) and symbolic/finite-table characterisations of every flag helper. '
-                'A proof settles all states at once, which is the quantifier the tests cannot reach.',
+                'Also: the decoded form of a Step, per-field frame theorems over all instructions (what an instruction does not name is unchanged), and a second hypothesis-free obligation layer over every Memory value (bus layer, C01_bus). A proof settles all states at once, which is the quantifier the tests cannot reach.',
         'note': NOTE_COMMON,
         'technique': 'Lean 4 proof: regenerated model = reference spec (per-slot simp obligations + carry-vector lemmas); differential correspondence as tie and search',
     },
@@ -38,8 +38,8 @@ TEXT = {
         'text': 'Machine-checked theorem C06_step: with a request pending, Gen.Step (regenerated from cpu.go) equals the abstract interrupt controller written from '
                 'the property text (NMI always; maskable iff IFF1; modes 1/2 push PC and vector, clearing IFF1 and IFF2; consumed; refused = ordinary instruction, '
                 'request stays) for EVERY state — all control bits, PC/SP wrap, vector byte and I universally quantified; C06_pending by induction over any number of '
-                'Steps; EI/DI/RETN/RETI obligations. Mode 0 with a supplied RST p: proved equal to the recorded description of this implementation (C06_im0_rst, every state) — the deviation from the Z80 is exactly KF-1/KF-2; other supplied instructions are checked against that description by correspondence.',
-        'note': NOTE_COMMON + ' Mode 0 with supplied bytes other than RST p: real code compared with Spec.stepKF by correspondence only.',
+                'Steps; EI/DI/RETN/RETI obligations. Mode 0 with ANY supplied bytes: proved equal to the recorded description of this implementation (C06_step_any: one reference instruction through the overlay bus; every supplied instruction, every state) — so the deviation from the Z80 is exactly the recorded KF-1/KF-2 and nothing else.',
+        'note': NOTE_COMMON + ' Mode 0 deviates from the Z80 as recorded (known findings); that it deviates in no other way is proved.',
         'technique': 'Lean 4 proof: regenerated processInterrupt/Step = abstract controller (simp), induction for pending requests; differential correspondence incl. known-finding classification',
     },
     'C05': {
@@ -60,9 +60,9 @@ TEXT = {
     },
     'C12': {
         'text': 'Machine-checked totality: Gen.Step (regenerated; slice indexing, nil dereference and nil handlers are translated as checked operations that yield panic) returns normally for EVERY state with '
-                'user memory and every request outside mode-0-with-data (any type, any IM, empty/long data, any PC/SP, no IO device); the mode-0 overlay accessors never index outside the supplied bytes for every '
+                'user memory and EVERY pending request, mode 0 with any supplied bytes included (C12_step_all; any type, any IM, empty/long data, any PC/SP, no IO device); the instruction interpreter never panics for every state and EVERY Memory value (C12_executeOne_total); the mode-0 overlay accessors never index outside the supplied bytes for every '
                 'length/start/address (induction over nested overlays); unsupported opcodes are consumed with one warning. No recursion/loops inside a Step (translator refuses them). '
-                'Partial: decode arms running over the overlay memory are covered by correspondence (malformed stream), not proof; Run returning on halt: C08.',
+                'Run returning on halt: C08.',
         'note': NOTE_COMMON,
         'technique': 'Lean 4 proof: totality theorems via commutation/frame lemmas over all instructions; differential correspondence on malformed states with panic detection',
     },
